@@ -941,4 +941,89 @@ example : a85Decode [0x38, 0x37, 0x63, 0x55, 0x52, 0x20, 0x73, 0x7E, 0x3E] = .er
 example : a85Decode [0x38, 0x37, 0x63, 0x55, 0x52, 0x20, 0x72, 0x7E, 0x3E] = .ok [0x48, 0x65, 0x6C, 0x6C] := by decide
 example : a85Decode [0x38, 0x37, 0x63, 0x55, 0x52, 0x20, 0x73, 0x7E, 0x3E] = .err .transform := by decide
 
+/-! ### the group-position bookkeeping is only observed through `in_group != 0`
+
+  Mutation sweep: `in_group = (in_group + 1) % 5` -> `(in_group + 2) % 5` and -> `(in_group - 1) % 5`
+  (src/pdf_lib/pdf_filters.rs:517) survive every check.  They must: the counter is an `i32` (integer
+  literal fallback), it is read only by `if in_group != 0`, and both replacements count the digits
+  of a group in another representation of Z/5 (`2k mod 5`; `-(k mod 5)` with Rust's truncating `%`)
+  that is zero exactly when `k mod 5` is.  The staging loop over ANY counter that simulates the
+  original one computes the same function; the two mutants are instances.  No input distinguishes
+  them, so no case family can (or should) report a violation on them. -/
+
+/-- the staging loop of `ASCII85Decode::transform` over an arbitrary group-position counter -/
+def a85StageC {γ : Type} (step : γ → γ) (zero : γ) (isZero : γ → Bool) : Bytes → Bytes → γ → Res Bytes
+  | [], st, _ => .ok st.reverse
+  | b :: t, st, g =>
+    if Filters.isWs b then a85StageC step zero isZero t st g
+    else if b == 0x7A then
+      if !isZero g then .err .transform
+      else a85StageC step zero isZero t (0x21 :: 0x21 :: 0x21 :: 0x21 :: 0x21 :: st) g
+    else if b == 0x7E then a85StageC step zero isZero t (0x7E :: st) zero
+    else a85StageC step zero isZero t (b :: st) (step g)
+
+/-- the model's loop is the instance `k ↦ (k + 1) % 5` -/
+theorem a85Stage_eq_C (input st : Bytes) (g : Nat) :
+    a85Stage input st g = a85StageC (fun k => (k + 1) % 5) 0 (fun k => k == 0) input st g := by
+  induction input generalizing st g with
+  | nil => rfl
+  | cons b t ih =>
+    unfold a85Stage a85StageC
+    simp only [ih, bne]
+
+/-- two counters related by a simulation that preserves the zero test stage the same text -/
+theorem a85StageC_sim {γ δ : Type} (R : γ → δ → Prop)
+    (step : γ → γ) (zero : γ) (isZero : γ → Bool) (step' : δ → δ) (zero' : δ) (isZero' : δ → Bool)
+    (hz : R zero zero') (hs : ∀ g g', R g g' → R (step g) (step' g'))
+    (hi : ∀ g g', R g g' → isZero g = isZero' g') (input st : Bytes) (g : γ) (g' : δ) (h : R g g') :
+    a85StageC step zero isZero input st g = a85StageC step' zero' isZero' input st g' := by
+  induction input generalizing st g g' with
+  | nil => rfl
+  | cons b t ih =>
+    unfold a85StageC
+    rw [hi g g' h, ih _ g g' h, ih _ g g' h, ih _ zero zero' hz, ih _ (step g) (step' g') (hs g g' h)]
+
+/-- **mutant `(in_group + 2) % 5` is equivalent**: counting a group's digits in steps of two modulo 5
+    stages exactly what the original loop stages, on every input -/
+theorem a85_counter_plus2_equiv (input : Bytes) :
+    a85StageC (fun k : Nat => (k + 2) % 5) 0 (fun k => k == 0) input [] 0 = a85Stage input [] 0 := by
+  rw [a85Stage_eq_C]
+  apply a85StageC_sim (fun (g' g : Nat) => g < 5 ∧ g' = 2 * g % 5)
+  · exact ⟨by omega, rfl⟩
+  · intro g' g ⟨h1, h2⟩
+    exact ⟨Nat.mod_lt _ (by omega), by subst h2; omega⟩
+  · intro g' g ⟨h1, h2⟩
+    subst h2
+    show ((2 * g % 5 == 0) = (g == 0))
+    rw [Bool.eq_iff_iff]
+    simp only [beq_iff_eq]
+    omega
+  · exact ⟨by omega, rfl⟩
+
+/-- **mutant `(in_group - 1) % 5` is equivalent**: `in_group` is an `i32`, Rust's `%` truncates towards
+    zero (`Int.tmod`), so the counter runs 0, -1, -2, -3, -4, 0, … and is zero exactly when the original is -/
+theorem a85_counter_minus1_equiv (input : Bytes) :
+    a85StageC (fun k : Int => (k - 1).tmod 5) 0 (fun k => k == 0) input [] 0 = a85Stage input [] 0 := by
+  rw [a85Stage_eq_C]
+  apply a85StageC_sim (fun (g' : Int) (g : Nat) => g < 5 ∧ g' = -(g : Int))
+  · exact ⟨by omega, rfl⟩
+  · intro g' g ⟨h1, h2⟩
+    refine ⟨Nat.mod_lt _ (by omega), ?_⟩
+    subst h2
+    have : g = 0 ∨ g = 1 ∨ g = 2 ∨ g = 3 ∨ g = 4 := by omega
+    rcases this with rfl | rfl | rfl | rfl | rfl <;> decide
+  · intro g' g ⟨h1, h2⟩
+    subst h2
+    by_cases hg : g = 0
+    · subst hg; rfl
+    · have h3 : (-(g : Int) == 0) = false := by simp; omega
+      have h4 : (g == 0) = false := by simp [hg]
+      rw [h3, h4]
+  · exact ⟨by omega, rfl⟩
+
+-- the counters do differ as numbers (after three digits: 3, 1, -3), only their zero test agrees
+example : ((fun k : Nat => (k + 2) % 5) ((fun k : Nat => (k + 2) % 5) ((fun k : Nat => (k + 2) % 5) 0)) = 1) ∧
+    ((fun k : Int => (k - 1).tmod 5) ((fun k : Int => (k - 1).tmod 5) ((fun k : Int => (k - 1).tmod 5) 0)) = -3) := by
+  decide
+
 end Parsley.C06
